@@ -358,7 +358,10 @@ def feasible(cons, bnd=None):
             if len(ne.c) == 1:
                 continue  # single-atom disequalities were handled exactly by the interval tightening above
             # lin != 0 is violated iff lin == 0 is forced
-            lo, hi = bounds(ne, [c for c in comp if c[1] != "!="], bnd)
+            try:
+                lo, hi = bounds(ne, [c for c in comp if c[1] != "!="], bnd)
+            except Infeasible:
+                return False
             if lo == 0 and hi == 0:
                 return False
     return True
